@@ -563,7 +563,7 @@ impl Subject for TableSubj {
             c11_struct(op, &bytes, &rebuild, cx);
             // RIMT mapping flags (constructor booleans) sit inside the mapping array
             if matches!(op.k, K::RiRc | K::RiPlatform) && be.subn > 0 {
-                let base = if op.k == K::RiRc { 16 } else { 12 + be.aux as usize + 1 };
+                let base = if op.k == K::RiRc { 16 } else { 12 + (be.aux & 0xffff_ffff) as usize + 1 };
                 for (i, m) in op.s.iter().filter(|o| o.k == K::RiMap).enumerate().take(be.subn as usize) {
                     let want = (m.arg(4) & 1) | (m.arg(5) & 1) << 1 | (m.arg(6) & 1) << 2;
                     if spec::rd(&bytes, base + 20 * i + 16, 4) != Some(want) {
@@ -593,10 +593,8 @@ impl Subject for TableSubj {
         match r {
             Ok((hclass, hraw)) => {
                 if second_imsic {
-                    // the statement does not say a second IMSIC must be refused; end without verdict
+                    // nothing says a second IMSIC must be refused; if accepted it is one more entry
                     cx.probe("fault.refusal.second_imsic_accepted");
-                    cx.stop = true;
-                    return Applied::ok();
                 }
                 if kind == K::MaImsic {
                     self.has_imsic = true;
@@ -752,6 +750,8 @@ struct SlitSubj {
     m: Vec<u8>,
     last_img: Option<Vec<u8>>,
     touched: Vec<u8>,
+    /// an out-of-range assignment was accepted: the cell model no longer applies
+    lost: bool,
 }
 
 impl Subject for SlitSubj {
@@ -794,8 +794,10 @@ impl Subject for SlitSubj {
                 Applied { refused: true, refusal_expected: true }
             }
             (Ok(()), false) => {
+                // the statement is silent about out-of-range pairs: the cell model cannot follow, but
+                // checksum and length (C01/C02) must survive whatever the crate chose to do
                 cx.probe("fault.refusal.out_of_range_accepted");
-                cx.stop = true;
+                self.lost = true;
                 Applied::ok()
             }
             (Err(_), false) => {
@@ -819,7 +821,7 @@ impl Subject for SlitSubj {
                 cx.fail(P03, "walk_tiles_image", format!("SLIT: image has {} bytes, {} localities need {}", img.len(), self.n, 44 + self.n * self.n));
             }
         }
-        if cx.on(P12) && img.len() >= 44 + self.n * self.n {
+        if cx.on(P12) && !self.lost && img.len() >= 44 + self.n * self.n {
             if let Some(c) = (0..self.n * self.n).find(|c| img[44 + c] != self.m[*c]) {
                 cx.fail(P12, "slit_cell_last_value", format!("SLIT {}x{}: cell ({}, {}) holds {}, last assigned {}", self.n, self.n, c / self.n, c % self.n, img[44 + c], self.m[c]));
             }
@@ -922,7 +924,7 @@ impl Subject for SysLocSubj {
                     }
                     (Ok(()), false) => {
                         cx.probe("fault.refusal.out_of_range_accepted");
-                        cx.stop = true;
+                        cx.stop = true; // which cell was written is unspecified: the model cannot follow
                     }
                     (Err(_), false) => {
                         cx.probe("fault.refusal.out_of_range_index");
@@ -1007,7 +1009,9 @@ impl Subject for Tpm2Subj {
                 Applied::ok()
             }
             (Ok(()), true) => {
-                cx.stop = true;
+                // nothing says a second call must be refused; if it is accepted the table must still
+                // satisfy C01/C02 afterwards, so the history simply continues
+                cx.probe("tpm2.second_log_area_accepted");
                 Applied::ok()
             }
             (Err(_), true) => {
@@ -1074,8 +1078,7 @@ impl Subject for TcpaServerSubj {
         match catch(|| tcpa_apply(t, op)) {
             Ok(n) => {
                 if bad_pci {
-                    cx.stop = true;
-                    return Applied::ok();
+                    cx.probe("fault.refusal.bad_pci_accepted");
                 }
                 self.t = n;
                 self.root.s.push(op.clone());
@@ -1567,7 +1570,7 @@ fn make_subject(root: &Op, cx: &mut Cx) -> Option<Box<dyn Subject>> {
         K::Xsdt | K::Mcfg | K::Madt | K::Srat | K::Hmat | K::Pptt | K::Rhct | K::Rimt | K::Viot | K::Cedt | K::Hest | K::Rqsc => Box::new(TableSubj::new(root)),
         K::Slit => {
             let n = (root.arg(2) % 301) as usize;
-            Box::new(SlitSubj { t: slit::SLIT::new(a, b, c, n as u32), n, m: vec![10; n * n], last_img: None, touched: vec![0; n * n] })
+            Box::new(SlitSubj { t: slit::SLIT::new(a, b, c, n as u32), n, m: vec![10; n * n], last_img: None, touched: vec![0; n * n], lost: false })
         }
         K::SysLocSubj => {
             let (s, i, t) = build::build_sysloc(&Op { k: K::HmSysLoc, a: root.a[2..].to_vec(), b: vec![], s: vec![] });
